@@ -351,6 +351,34 @@ def check_C09(tier):
         if not valid and (p.returncode == 0 or has_code or not p.stderr.strip()):
             res.add_failures([{"fail": True, "case": it["name"], "variant": "cargo_build_tosource", "sig": "cargo_build_tosource invalid",
                                "detail": "cargo_build_tosource exit %d, code written: %s, diagnostic: %r for a rejected definition" % (p.returncode, has_code, p.stderr[-200:])}], "cargo_build")
+    # several definitions in one call of the build-script helper: any rejected one fails the build, wherever it stands
+    goods = [it for it in items[:: (40 if thorough else 160)] if obs.get(it["name"], {}).get("generate", {}).get("ok")][:6]
+    bads = bad_items[:: (25 if thorough else 60)][:4]
+    combos = []
+    for g in goods[:3]:
+        for b in bads:
+            combos += [[b, g], [g, b], [g, b, goods[-1]]]
+    combos += [[goods[0], goods[-1]]] if goods else []
+    for k, combo in enumerate(combos):
+        nbin += 1
+        od = os.path.join(res.wd, "many-%d" % k)
+        os.makedirs(od, exist_ok=True)
+        fns = []
+        for j, it in enumerate(combo):
+            fn = os.path.join(od, "org.example.m%d.varlink" % j)
+            open(fn, "w").write(it["text"])
+            fns.append(fn)
+        outd = os.path.join(od, "out")
+        os.makedirs(outd, exist_ok=True)
+        p = subprocess.run([vh, "cargobuild", "--many"] + fns, env=dict(os.environ, OUT_DIR=outd), stdout=subprocess.PIPE, stderr=subprocess.PIPE, text=True)
+        any_bad = any(it["name"].startswith("bad") for it in combo)
+        if any_bad and p.returncode == 0:
+            res.add_failures([{"fail": True, "case": "many-%d" % k, "variant": "cargo_build_many", "sig": "cargo_build_many exit 0 with a rejected definition",
+                               "detail": "cargo_build_many exits 0 although definition #%d of %d is rejected by the parser (order: %s)" %
+                                         (1 + [it["name"].startswith("bad") for it in combo].index(True), len(combo), [("rejected" if it["name"].startswith("bad") else "valid") for it in combo])}], "cargo_build")
+        if not any_bad and p.returncode != 0:
+            res.add_failures([{"fail": True, "case": "many-%d" % k, "variant": "cargo_build_many", "sig": "cargo_build_many valid",
+                               "detail": "cargo_build_many failed on valid definitions: %s" % p.stderr[-300:]}], "cargo_build")
     res.evaluations += nbin
     res.extra["rejected_texts"] = len(bad_items)
     res.nontrivial = {it["text"] for it in items} | {it["text"] for it in bad_items}
